@@ -517,6 +517,14 @@ impl Sess {
                 }
                 _ => bad(),
             },
+            ["spec.load", ss, ps, hx] => match (parse_ss(ss), parse_ps(ps), parse_hex(hx)) {
+                // loading applies the program's limits (what the specification prescribes is answered by the driver)
+                (Some(ss), Some(ps), Some(img)) => {
+                    m.load(bytecode(&img, ss, ps));
+                    format!("limits ss={} ps={} run={}", ss_str(m.stacksize()), ps_str(m.programsize()), run_str(m))
+                }
+                _ => bad(),
+            },
             ["edge"] => {
                 m.raw_mut().trigger_clock_edge();
                 ok()
@@ -664,6 +672,20 @@ impl Sess {
                 _ => bad(),
             },
             ["spec.di1", v] => byte(v).map(|v| { m.set_digital_input1(v); ok() }).unwrap_or_else(bad),
+            ["spec.busstat"] => {
+                // reads of 0xF0 / 0xF1 / 0xF2 / 0xF3 return the board's input port, status register, fan period and
+                // interrupt status register - exactly what the board itself reports
+                let bus = m.bus();
+                let b = bus.board();
+                let ok = bus.read(0xF0) == *b.digital_input1()
+                    && bus.read(0xF1) == b.dasr().bits()
+                    && bus.read(0xF2) == b.get_fan_period()
+                    && bus.read(0xF3) == b.daisr().bits();
+                if ok { "consistent".into() } else {
+                    format!("inconsistent f0={}/{} f1={}/{} f2={}/{} f3={}/{}", bus.read(0xF0), b.digital_input1(), bus.read(0xF1), b.dasr().bits(),
+                        bus.read(0xF2), b.get_fan_period(), bus.read(0xF3), b.daisr().bits())
+                }
+            }
             ["spec.irq"] => {
                 m.trigger_key_interrupt();
                 ok()
